@@ -16,7 +16,7 @@ type nhPlan struct {
 }
 
 // nhRunPlans runs the plans and writes the evidence.
-func nhRunPlans(r *ev.Run, prop, check string, plans []nhPlan, rule string, assumptions []string) int {
+func nhRunPlans(r *ev.Run, prop, check string, plans []nhPlan, rule string, assumptions []string, extra ...func() int) int {
 	var st nhBFSStats
 	def := nhChecks[check]()
 	for _, p := range plans {
@@ -31,6 +31,11 @@ func nhRunPlans(r *ev.Run, prop, check string, plans []nhPlan, rule string, assu
 		if per.MaxDepth > st.MaxDepth {
 			st.MaxDepth = per.MaxDepth
 		}
+	}
+	for _, f := range extra {
+		n := f()
+		st.Transitions += n
+		st.Validated += n
 	}
 	r.Add("sends_observed", int64(st.SendsSeen))
 	r.Add("distinct_send_sequences", int64(st.Outcomes))
